@@ -33,6 +33,7 @@ type proc struct {
 	decl  map[*Term]bool
 	fdecl map[string]bool
 	dead  bool
+	stack []*Term // incremental mode: assertions currently pushed (one push level each)
 }
 
 type QueryLog struct {
@@ -55,6 +56,7 @@ type Solver struct {
 	Log       []QueryLog
 	Harness   string
 	Errors    []string
+	Incremental bool
 	DiffEvery int // every n-th query is answered by a second solver and compared
 	Diffs     int
 	DiffBad   int
@@ -118,7 +120,8 @@ func (p *proc) start(timeoutMs int) error {
 	p.decl = map[*Term]bool{}
 	p.fdecl = map[string]bool{}
 	p.dead = false
-	io.WriteString(p.in, "(set-option :produce-models true)\n(set-logic ALL)\n")
+	p.stack = nil
+	io.WriteString(p.in, "(set-option :produce-models true)\n(set-option :global-declarations true)\n(set-logic ALL)\n")
 	return nil
 }
 
@@ -207,14 +210,31 @@ func (s *Solver) ask(p *proc, asserts []*Term, want []*Term) (Verdict, Model, []
 	var q strings.Builder
 	all := append(append([]*Term{}, asserts...), want...)
 	q.WriteString(s.declsFor(p, all))
-	q.WriteString("(push 1)\n")
 	size := 0
-	for _, a := range asserts {
-		t := a.SMT()
-		size += len(t)
-		q.WriteString("(assert ")
-		q.WriteString(t)
-		q.WriteString(")\n")
+	if s.Incremental {
+		k := 0
+		for k < len(p.stack) && k < len(asserts) && p.stack[k] == asserts[k] {
+			k++
+		}
+		if n := len(p.stack) - k; n > 0 {
+			fmt.Fprintf(&q, "(pop %d)\n", n)
+			p.stack = p.stack[:k]
+		}
+		for _, a := range asserts[k:] {
+			q.WriteString("(push 1)\n(assert ")
+			q.WriteString(a.SMT())
+			q.WriteString(")\n")
+			p.stack = append(p.stack, a)
+		}
+	} else {
+		q.WriteString("(push 1)\n")
+		for _, a := range asserts {
+			t := a.SMT()
+			size += len(t)
+			q.WriteString("(assert ")
+			q.WriteString(t)
+			q.WriteString(")\n")
+		}
 	}
 	q.WriteString("(check-sat)\n")
 	if s.Dump != nil {
@@ -300,7 +320,9 @@ func (s *Solver) ask(p *proc, asserts []*Term, want []*Term) (Verdict, Model, []
 			model = Model{}
 		}
 	}
-	io.WriteString(p.in, "(pop 1)\n")
+	if !s.Incremental {
+		io.WriteString(p.in, "(pop 1)\n")
+	}
 	_ = size
 	return verdict, model, vals, nil
 }
